@@ -166,6 +166,7 @@ type Conn struct {
 	wb    budgets
 	wmu   sync.Mutex
 	nb    bool
+	rmax  int
 	Stats struct{ Timeouts, Writes int }
 }
 
@@ -182,6 +183,14 @@ func NewPair() (*Conn, *Conn) {
 func (c *Conn) SetNonBlocking(v bool) {
 	c.in.mu.Lock()
 	c.nb = v
+	c.in.mu.Unlock()
+}
+
+// SetReadChunk caps the number of bytes a single Read returns (0 = no cap),
+// modelling a stream that arrives in small segments.
+func (c *Conn) SetReadChunk(n int) {
+	c.in.mu.Lock()
+	c.rmax = n
 	c.in.mu.Unlock()
 }
 
@@ -281,6 +290,9 @@ func (c *Conn) Read(p []byte) (int, error) {
 			return 0, ErrWouldBlock
 		}
 		h.cond.Wait()
+	}
+	if c.rmax > 0 && len(p) > c.rmax {
+		p = p[:c.rmax]
 	}
 	n := copy(p, h.buf)
 	h.buf = h.buf[n:]
